@@ -65,11 +65,16 @@ FLOORS = {
               'step_monitor_events': 600000, 'feat:style_tok': 150, 'feat:class_key': 40,
               'feat:odd_element_names': 60, 'hazard_free_programs': 900, 'route:text': 500, 'route:object': 800,
               'feat:long_keywords': 60, 'feat:assoc_join': 100, 'feat:assoc_join:left': 50,
-              'feat:assoc_join:right': 50, 'feat:assoc_join_multiline': 25},
+              'feat:assoc_join:right': 50, 'feat:assoc_join_multiline': 25, 'feat:empty_constant': 50,
+              'feat:nonfinite_float': 100, 'feat:nonfinite_float:constant': 60, 'feat:nonfinite_float:param': 45,
+              'feat:numeric_first_param': 80, 'source_route_parser_class_with_directives': 200,
+              'parser_class_calls': 6000},
     'thorough': {'programs': 15000, 'json_reloaded': 12000, 'pickle_reloaded': 15000, 'source_reloaded': 7000,
                  'both_accepted': 60000, 'asjson_runs': 80000, 'asjson_cyclic': 15000, 'asjson_shared': 8000,
                  'step_monitor_events': 6000000, 'hazard_free_programs': 9000, 'feat:long_keywords': 600,
-                 'feat:assoc_join': 1000, 'feat:assoc_join_multiline': 250},
+                 'feat:assoc_join': 1000, 'feat:assoc_join_multiline': 250, 'feat:empty_constant': 500,
+                 'feat:nonfinite_float': 1000, 'feat:numeric_first_param': 800,
+                 'source_route_parser_class_with_directives': 2000},
 }
 N = {'quick': 1920, 'thorough': 19200}
 INPUTS = {'quick': 5, 'thorough': 6}
@@ -392,6 +397,8 @@ def check_source(acc, model, text, start, inputs, fails, stats):
     if len(fails) > n0:
         f, k, d = fails[-1]
         fails[-1] = (f, 'parser-class-' + k, d)
+    # (b') grammars WITH directives: the class must honour them (bare call / one unrelated setting / asmodel=False)
+    check_parser_class_directives(acc, model, cls, inputs, fails, stats)
     # (c) an explicit start rule through the parser class (a sample: the mechanism is API-level, not per grammar)
     if start != first and h64('c14start', text or '', start) % 5 == 0:
         for t in inputs:
@@ -405,6 +412,77 @@ def check_source(acc, model, text, start, inputs, fails, stats):
                               f'<Name>Parser().parse(text, start={start!r}) on {t!r}: model {str(a)[:100]} parser class '
                               f'{str(b)[:100]} (default start {first!r} gives {str(b0)[:100]})'))
                 break
+
+
+def deep_canon(v, depth=0, seen=None):
+    """canonical comparable form of an AST or an OBJECT MODEL: lists/tuples unified, nodes as (class name, public
+    fields), parseinfo kept as [rule, pos, endpos] (so that @@parseinfo is visible), cycles cut"""
+    if v is None or isinstance(v, (bool, int, float, str, bytes)):
+        return v
+    seen = seen if seen is not None else set()
+    if depth > 60 or id(v) in seen:
+        return '<cut>'
+    seen = seen | {id(v)}
+    if hasattr(v, 'rule') and hasattr(v, 'pos') and hasattr(v, 'endpos') and isinstance(v, tuple):
+        return ['<parseinfo>', v.rule, v.pos, v.endpos]
+    if isinstance(v, dict):
+        return {str(k): deep_canon(x, depth + 1, seen) for k, x in v.items()}
+    if isinstance(v, (list, tuple)):
+        return [deep_canon(x, depth + 1, seen) for x in v]
+    d = getattr(v, '__dict__', None)
+    if isinstance(d, dict):
+        return {'<class>': type(v).__name__,
+                **{k: deep_canon(x, depth + 1, seen) for k, x in sorted(d.items())
+                   if not k.startswith('_') and k != 'ctx'}}
+    return repr(v)[:80]
+
+
+def outcome_deep(fn):
+    from tatsu.exceptions import FailedParse
+    try:
+        return ('ok', deep_canon(fn()))
+    except FailedParse:
+        return ('fail',)
+    except RecursionError:
+        return ('EXC', 'RecursionError')
+    except Hang:
+        raise
+    except Exception as e:  # noqa: BLE001
+        return ('EXC', type(e).__name__)
+
+
+UNRELATED_SETTINGS = [('nameguard', True), ('ignorecase', False), ('parseinfo', False), ('memoization', True)]
+
+
+def check_parser_class_directives(acc, model, cls, inputs, fails, stats):
+    """the emitted <Name>Parser class must honour the grammar's directives exactly as the model does: bare call, a call
+    with one setting the grammar does not mention, and a call with asmodel=False, each compared with the original model
+    under the SAME arguments (first rule = the class's default start)"""
+    directives = {k: v for k, v in (model.directives or {}).items() if k != 'grammar'}
+    if not directives:
+        return
+    stats['parser_class_with_directives'] = 1
+    for k in directives:
+        acc.count('parser_class_directive:' + k)
+    first = model.rules[0].name
+    extra = next(((k, v) for k, v in UNRELATED_SETTINGS if k not in directives), None)
+    forms = [('bare', {}), ('asmodel-false', {'asmodel': False})]
+    if extra:
+        forms.insert(1, ('one-setting', {extra[0]: extra[1]}))
+    for form, kw in forms:
+        okw = dict(kw)
+        okw.setdefault('asmodel', True)         # the emitted parse() defaults to asmodel=True
+        for t in inputs:
+            a = outcome_deep(lambda t=t: model.parse(t, start=first, **okw))
+            b = outcome_deep(lambda t=t: cls().parse(t, **kw))
+            acc.evaluations += 1
+            acc.count('parser_class_calls')
+            if a != b:
+                rel = 'result' if a[0] == b[0] == 'ok' else f'{a[0]}/{b[0]}'
+                fails.append(('source', 'parser-class-directives',
+                              f'{rel} for <Name>Parser().parse(text{"".join(f", {k}={v!r}" for k, v in kw.items())}) on '
+                              f'{t!r} with directives {directives}: model {str(a)[:140]} parser class {str(b)[:140]}'))
+                return
 
 
 class FirstRule:
@@ -488,6 +566,7 @@ def do_corpus_case(acc, idx, origin):
     acc.count('route:corpus')
     for k in ('json_reloaded', 'pickle_reloaded', 'source_reloaded'):
         acc.count(k, stats.get(k, 0))
+    acc.count('source_route_parser_class_with_directives', stats.get('parser_class_with_directives', 0))
     acc.nontriv('corpus', name)
     if fails:
         acc.count('disagreements_checked', len(fails))
@@ -585,6 +664,7 @@ def do_model_case(acc, rng, route, n_inputs, origin, sample=False):
         acc.count('hazard_free_programs')
     for k in ('json_reloaded', 'pickle_reloaded', 'source_reloaded'):
         acc.count(k, stats.get(k, 0))
+    acc.count('source_route_parser_class_with_directives', stats.get('parser_class_with_directives', 0))
     acc.count('both_accepted', stats['accepted'])
     if stats['accepted'] and (stats.get('json_reloaded') or stats.get('pickle_reloaded')):
         acc.nontriv('model', route, MG.gtext(g))
